@@ -85,7 +85,7 @@ harnesses! {
     }
 
     /// 1.0 when the window's wall is missing or has no geometric position
-    #[kani::unwind(6)]
+    #[kani::unwind(10)]
     #[kani::stub(alloc::fmt::format, crate::stubs::fmt_stub)]
     fn sunlit_fraction_missing(s) {
         let mut m = Model::default();
